@@ -14,13 +14,13 @@ SPEC = {
              "InnerTxn/Gitxn and as itxn_field, every global, asset/app/account parameter) compiled at every version 2..10 in both modes, "
              "every third with assembleConstants; (2) random recipes at random versions incl. below their documented minimum; (3) label "
              "hazards (subroutine names that sanitise to equal/empty stems or look like opcodes/labels); (4) immediates at 0/15/16/127/128/"
-             "255/256/...; (5) random routers (approval+clear); (6) ABI encode programs.  An evaluation is one compilation outcome judged "
+             "255/256/...; (5) random routers (approval+clear); (6) ABI encode programs; (7) the repository's own example programs (examples/**, tests/teal/rps.py, the algobank router) at every version from their own minimum under every option setting.  An evaluation is one compilation outcome judged "
              "(emitted text -> legal at (version, mode)?; rejection -> PyTeal error type?).  Non-trivial = the program was emitted and "
              "contains a branch, a callsub or a version/mode-gated opcode or field; distinct = distinct emitted texts."),
     "assumptions": ["vlib/langspec.py (hand-written from the AVM specification; only 'certain' entries can alarm)",
                     "vlib/tealgrammar.py (Go assembler tokenizer and literal grammar)", "vlib/cfg.py path analysis"],
     "min_evaluations": {"quick": 8000, "thorough": 60000},
-    "must_reach": ["emitted_catalogue", "emitted_recipe", "emitted_labels", "emitted_immediates", "emitted_router", "emitted_abi",
+    "must_reach": ["emitted_catalogue", "emitted_corpus", "emitted_recipe", "emitted_labels", "emitted_immediates", "emitted_router", "emitted_abi",
                    "rejected_pt_error", "legal", "gated_constructs_seen"],
     "shard_timeout": {"quick": 600, "thorough": 7200},
 }
@@ -91,6 +91,8 @@ def run_shard(shard):
         return replay(pt, acc, shard["replay"], seen)
     rng = rng_for(shard["seed"], "c04", shard["shard"])
     for it in feed.catalogue_items(pt, rng, shard["shard"], shard["nshards"]):
+        judge(acc, it, seen)
+    for it in feed.corpus_items(pt, rng, shard["shard"], shard["nshards"]):
         judge(acc, it, seen)
     for it in feed.recipe_items(pt, rng, shard["recipes"]):
         judge(acc, it, seen)
